@@ -36,7 +36,20 @@ def request(cls_name, m, args, ids=None):
 
 
 def compare(ctx, cls_name, m, args, engine="E1_cycles"):
-    d, impl = e1cyc.compare(ctx, engine, m, request(cls_name, m, args))
+    req = request(cls_name, m, args)
+    d, impl = e1cyc.compare(ctx, engine, m, req)
+    # the full LP (columns, bounds, integrality, rows, objective, sense) is also decided by the extracted VERIFIED checker
+    # LinEquiv.milp_equiv_b (klaec_eq / kmpec_eq); if it disagrees with the Python diff, the verified answer is reported
+    try:
+        ve = e1.verified_equal(ctx, engine, impl, req)
+    except Exception as e:
+        ve = None; ctx.report(f"{engine}: verified LP comparison crashed: {e!r}", {"engine": engine}, concrete=False)
+    if ve is not None and ve != (not d):
+        ctx.count(engine, "python_diff_and_verified_checker_disagree")
+        if ve is False and not d:
+            d = ["the verified checker LinEquiv.milp_equiv_b rejects the equivalence of the two LPs (the Python diff saw none)"]
+        elif ve is True and d:
+            ctx.notes.append({"verified_checker_accepts_although_python_diff_reports": d[:3]}); d = []
     return d, impl
 
 
